@@ -195,6 +195,12 @@ theorem retK_of_fin2 (σ : State) (l1 l2 : LV) (f : String) (o : Out) (v1 v2 : V
     retK σ [l1, l2] f o = assignK { σ with fld := fl } [l1, l2] (msg "result arity of" f) [v1, v2] := by
   cases o <;> simp_all [Out.fin, retK]
 
+/-- a call with at least one result -/
+theorem retK_of_fin (σ : State) (lhs : List LV) (f : String) (o : Out) (v : Val) (vs : List Val) (fl : Env)
+    (h : o.fin = some (v :: vs, fl)) :
+    retK σ lhs f o = assignK { σ with fld := fl } lhs (msg "result arity of" f) (v :: vs) := by
+  cases o <;> simp_all [Out.fin, retK]
+
 /-- running a function from outside -/
 theorem run_of_fin (X : Ctx) (fuel : Nat) (f : String) (fn : Fun) (args : List Val) (fld : Env) (rs : List Val) (fl : Env)
     (hf : X.funs f = some fn) (ha : fn.params.length = args.length)
